@@ -1207,6 +1207,225 @@ def d4_inplace_metric(ck):
     return len(rets)
 
 
+# ---------------------------------------------------------------------------
+# D4.callback-state: a caller-owned array must not be the state that a
+# caller-supplied update function transforms.
+#
+# Role: a call `g(..., v, ...)` whose callee `g` may be a callable the CALLER
+# supplied (the may-alias value of the name `g` at the call carries the tag of
+# a parameter - directly, through a rebinding on some branches only, or through
+# a package helper that may return its argument) and whose result REPLACES the
+# argument it was computed from (`v = g(v, ...)`, possibly through one
+# temporary): `g` is a state-update function, the routine uses its input and its
+# output interchangeably, so nothing in the routine depends on `g` handing back
+# a fresh object - an update function that works in place and returns its
+# argument satisfies the same contract ("returns the new X").  The object the
+# routine hands over on the first trip must therefore be its own: if `v` may
+# still share storage with a parameter there (tag ('P', p) of the effects
+# analysis; a copy.copy / .copy() / np.array(...) duplicate carries no such
+# tag), the caller's array is what the update function edits.  A callable
+# whose result goes elsewhere (a metric `d = f(X, c)`) is not in this role.
+
+def _alias_in_states(ea, mod, fn):
+    """IN state (name -> tags) at every CFG node of `fn` of the may-alias
+    dataflow of sa/effects.py, replayed with the final interprocedural
+    summaries (EffectsAnalysis keeps the store records, not the states).
+    Candidate for promotion: EffectsAnalysis.states(rel, qual)."""
+    from ..cfg import CFG
+    from ..resolve import enclosing_class
+    cfg = CFG(fn)
+    ctx = {'mod': mod, 'cls': enclosing_class(mod, fn), 'fn': fn,
+           'kinds': ea._kinds(fn), 'unknown_index': []}
+    init = {p: frozenset([('P', p)]) for p in params(fn)}
+    if fn.args.kwarg is not None:
+        init[fn.args.kwarg.arg] = frozenset()
+    IN = {n: None for n in cfg.nodes}
+    OUT = {n: None for n in cfg.nodes}
+    OUT[ENTRY] = init
+
+    def join(a, b):
+        if a is None:
+            return dict(b)
+        out = dict(a)
+        for k, v in b.items():
+            out[k] = out.get(k, frozenset()) | v
+        return out
+
+    work = [n for n in cfg.nodes if n != ENTRY]
+    iters = 0
+    while work and iters < 20000:
+        iters += 1
+        n = work.pop(0)
+        st = None
+        for p in cfg.pred.get(n, []):
+            if OUT[p] is not None:
+                st = join(st, OUT[p])
+        if st is None:
+            continue
+        IN[n] = st
+        new = ea._transfer(n, dict(st), ctx) if n != EXIT else st
+        if new != OUT[n]:
+            OUT[n] = new
+            for s in cfg.succ.get(n, []):
+                if s not in work:
+                    work.append(s)
+    return cfg, IN, ctx
+
+
+def _replaced_names(fi, fn, stmt):
+    """Names that receive the value computed by the assignment `stmt`:
+    its own Name targets plus names bound by a plain copy `x = t` of one of
+    them that this very assignment reaches."""
+    out = set()
+    for t in stmt.targets:
+        if isinstance(t, ast.Name):
+            out.add(t.id)
+        elif isinstance(t, (ast.Tuple, ast.List)):
+            out.update(e.id for e in t.elts if isinstance(e, ast.Name))
+    for s2 in walk_local(fn):
+        if isinstance(s2, ast.Assign) and isinstance(s2.value, ast.Name) and s2.value.id in out \
+                and len(s2.targets) == 1 and isinstance(s2.targets[0], ast.Name):
+            try:
+                sites = fi.rd.defs_at(fi.stmt(s2), s2.value.id)
+            except Exception:
+                sites = ()
+            if stmt in sites:
+                out.add(s2.targets[0].id)
+    return out
+
+
+def _callback_state_sites(ea, mod, q, fn):
+    """[(stmt, call, callee name, supplying params, arg expr, arg's param tags)] for every call in `fn` in the
+    state-update role described above."""
+    cands = [s for s in walk_local(fn)
+             if isinstance(s, ast.Assign) and isinstance(s.value, ast.Call) and isinstance(s.value.func, ast.Name)
+             and (s.value.args or s.value.keywords)]
+    if not cands:
+        return []
+    fi = finfo(mod, fn)
+    located = []
+    for s in cands:
+        repl = _replaced_names(fi, fn, s)
+        c = s.value
+        for a in list(c.args) + [k.value for k in c.keywords]:
+            if isinstance(a, ast.Starred):
+                a = a.value
+            if isinstance(a, ast.Name) and a.id in repl:
+                located.append((s, a))
+    if not located:
+        return []
+    cfg, IN, ctx = _alias_in_states(ea, mod, fn)
+    out = []
+    for s, a in located:
+        st = IN.get(s)
+        if st is None:
+            continue        # unreachable
+        c = s.value
+        g = c.func.id
+        suppliers = sorted({p for (k, p) in st.get(g, frozenset()) if k == 'P'})
+        if not suppliers:
+            continue        # not a caller-supplied callable (package functions: D4.no-arg-mutation follows them)
+        tags = ea.av(a, st, ctx)
+        out.append((s, c, g, suppliers, a, sorted({p for (k, p) in tags if k == 'P'})))
+    return out
+
+
+def _callers_of(ea, rel, q):
+    """[(mod, qual, fn, call)] of the package calls that resolve to (rel, q)."""
+    from ..resolve import enclosing_class
+    out = []
+    for (m, q2, fn2) in ea._fns:
+        cls = enclosing_class(m, fn2)
+        for c in walk_local(fn2):
+            if isinstance(c, ast.Call):
+                t = ea.res.resolve_call(m, c, cls)
+                if t is not None and t.kind == 'func' and t.rel == rel and t.qual == q:
+                    out.append((m, q2, fn2, c, t))
+    return out
+
+
+def _is_public_qual(q):
+    leaf = q.split('.')[-1]
+    return not (leaf.startswith('_') and not (leaf.startswith('__') and leaf.endswith('__')))
+
+
+def d4_callback_state(ck, rels):
+    rule = 'C19.D4.no-arg-mutation.callback-state'
+    res, ea = shared(ck.repo)
+    n = 0
+    for rel in rels:
+        mod = ck.repo.mod(rel)
+        for q, fn in mod.functions.items():
+            if '<locals>' in q:
+                continue
+            for (s, c, g, suppliers, a, owners) in _callback_state_sites(ea, mod, q, fn):
+                n += 1
+                ck.analysed(mod, fn)
+                construct = '%s = %s(%s, ...): state handed to a caller-supplied update function' % (a.id, g, a.id)
+                role = ('`%s` may be the callable the caller passed as `%s`, and its result replaces the argument `%s` it was computed '
+                        'from (state-update role)' % (g, '`/`'.join(suppliers), a.id))
+                if not owners:
+                    ck.ok(rule, mod, s, construct, '%s; `%s` shares no storage with a parameter here (private duplicate / own result)'
+                          % (role, a.id))
+                    continue
+                # `a` may still be the caller's object.  Public routine: decided.  Private helper: the objects its
+                # package callers bind to that parameter decide.
+                pending = [(mod, q, fn, p, 0) for p in owners]
+                seen = set()
+                verdicts = []
+                while pending:
+                    m1, q1, f1, p1, d = pending.pop()
+                    if (m1.rel, q1, p1) in seen:
+                        continue
+                    seen.add((m1.rel, q1, p1))
+                    if _is_public_qual(q1) and not getattr(f1, 'cy_cdef', False):
+                        verdicts.append(('bad', m1, q1, p1))
+                        continue
+                    callers = _callers_of(ea, m1.rel, q1)
+                    if not callers:
+                        # the front end inlined this private helper into every caller (sa/inline.py): the site
+                        # was located - and is decided - inside those callers
+                        inl = {h for hs in (ck.repo.inlined.get(m1.rel) or {}).values() for h in hs}
+                        if q1.split('.')[-1] in inl:
+                            verdicts.append(('inlined', m1, q1, p1))
+                            continue
+                    if not callers or d >= 3:
+                        verdicts.append(('open', m1, q1, p1))
+                        continue
+                    for (m2, q2, f2, c2, t2) in callers:
+                        if '<locals>' in q2:
+                            verdicts.append(('open', m2, q2, p1))
+                            continue
+                        b = ea._bind_args(c2, f1, t2).get(p1)
+                        if b is None:
+                            continue        # parameter left at its default: nothing of the caller's
+                        cfg2, IN2, ctx2 = _alias_in_states(ea, m2, f2)
+                        st2 = IN2.get(finfo(m2, f2).stmt(c2))
+                        if st2 is None:
+                            continue
+                        for p2 in sorted({p for (k, p) in ea.av(b, st2, ctx2) if k == 'P'}):
+                            pending.append((m2, q2, f2, p2, d + 1))
+                bad = [v for v in verdicts if v[0] == 'bad']
+                opn = [v for v in verdicts if v[0] == 'open']
+                if bad:
+                    _, m1, q1, p1 = bad[0]
+                    ck.bad(rule, mod, s, q, construct,
+                           '%s; on the first trip `%s` may still be the very object the caller passed as parameter `%s` of %s '
+                           '(no private duplicate - copy.copy / .copy() / np.array - on every path from the entry to this call): an '
+                           'update function that works in place and returns its argument, which the contract "takes X and returns the '
+                           'new X" admits, then edits the caller\'s array; a repeated identical call starts from different contents'
+                           % (role, a.id, p1, q1 if (m1 is mod and q1 == q) else '%s::%s' % (m1.rel, q1)),
+                           '%s:%s %s' % (mod.rel, getattr(s, 'lineno', 0), u(s)[:160]))
+                elif opn:
+                    ck.missing(rule, '%s::%s: `%s` handed to the caller-supplied update function `%s` may alias parameter %s of the '
+                                     'private function %s, whose callers could not all be followed'
+                               % (mod.rel, q, a.id, g, opn[0][3], opn[0][2]))
+                else:
+                    ck.ok(rule, mod, s, construct, '%s; every package caller of the private %s binds a private object to %s '
+                          '(or the helper was inlined into its callers and is decided there)' % (role, q, '/'.join(owners)))
+    return n
+
+
 CONTAINER_CTORS = ('dict', 'list', 'set', 'defaultdict', 'OrderedDict', 'deque', 'Counter', 'WeakValueDictionary',
                    'WeakKeyDictionary', 'bytearray')
 
@@ -2278,6 +2497,9 @@ def check(ck):
     ck.floor('C19.D4.no-arg-mutation', n4, 150, '(function, parameter) pairs')
     nm = d4_inplace_metric(ck)
     ck.floor('C19.D4.no-arg-mutation.inplace-metric', nm, 1, 'returns of the metric factory')
+    ncb = d4_callback_state(ck, rels)
+    ck.floor('C19.D4.no-arg-mutation.callback-state', ncb, 1,
+             'calls of a caller-supplied update function whose result replaces its argument (tpt.paths: remove_path)')
     for (rel, q), why in PRIVATE_INPLACE_HELPERS.items():
         ck.assume('%s::%s writes its parameters by design: %s' % (rel, q, why))
     if thorough:
